@@ -90,7 +90,7 @@ def name_allowed(run, op):
     if k in ('set_attr', 'set_attr_none'):
         return any(a['qname'] == op[1] or py_name(a['qname'].split(':')[-1]) == op[1]
                    for a in s.attributes_of(run.tkey))
-    if k == 'read':
+    if k in ('read', 'set_raw'):
         nm = op[1]
         if nm.startswith('xml_'):
             return any(py_name(a) == nm[4:] for a in run.alphabet)
@@ -111,7 +111,7 @@ def judge(run, op, r):
     if r.etype in ('TypeError', 'ValueError') and value_invalid(run, op):
         return None
     if r.etype == 'AttributeError' and op[0] in ('dot_inst', 'dot_val', 'dot_none', 'set_attr', 'set_attr_none',
-                                                 'read') and not name_allowed(run, op):
+                                                 'read', 'set_raw') and not name_allowed(run, op):
         return None      # AttributeError is the documented answer to a dot name the schema does not allow here
     return 'undocumented-exception', {'op': op, 'exception': r.etype, 'message': r.msg[:160]}
 
@@ -159,6 +159,19 @@ def nontrivial(run):
         any(op[0] == 'to_string' and op[1] for op in run.ops)
 
 
+RAW_NAMES = st.one_of(
+    st.sampled_from(['xml_', 'xml__', 'xml__pitch', 'xml_pitch_', 'xml_time__modification', 'xml', 'xmlx', 'x', '__', 'a_',
+                     'font__family', 'font_', 'xml_Pitch', 'xml_pitch_x', 'XML_pitch', 'xml-pitch', 'default__x']),
+    st.from_regex(r'(xml_)?[a-z_]{0,12}', fullmatch=True).filter(lambda n: n and not n.startswith('_')))
+
+
+def raw_op(data):
+    nm = data.draw(RAW_NAMES)
+    if data.draw(st.booleans()):
+        return ['read', nm]
+    return ['set_raw', nm, data.draw(st.sampled_from(['x', 1, None, 1.5]))]
+
+
 def make_body(ctx, acc):
     s = schema()
     te = gen.types_and_elements(all_elements=not ctx.quick)
@@ -183,6 +196,8 @@ def make_body(ctx, acc):
             elif z == 2:
                 op = ['read', data.draw(st.sampled_from(['xml_bogus', 'bogus', 'xml_' + py_name(run.alphabet[0]),
                                                          'font_family', 'number', 'type', 'id']))]
+            elif z == 3:
+                op = raw_op(data)
             else:
                 op = draw_op(data, run, WEIGHTS, {'prefix': 4, 'compatible': 5, 'incompatible': 3, 'foreign': 2})
             with Watchdog(60):
@@ -246,7 +261,7 @@ def run_shard(ctx, shard, acc):
                 return
             for _ in range(data.draw(st.integers(1, 8))):
                 k = data.draw(st.sampled_from(['set_attr', 'set_attr', 'set_attr_none', 'set_value', 'read', 'read',
-                                               'add_foreign', 'add_junk', 'to_string']))
+                                               'add_foreign', 'add_junk', 'to_string', 'raw', 'raw']))
                 if k == 'read':
                     nm = data.draw(st.sampled_from(['xml_bogus', 'bogus', 'xml_pitch', 'font_family', 'number',
                                                     'type', 'id', 'xml_staff', 'placement', 'default_x', 'value',
@@ -258,6 +273,8 @@ def run_shard(ctx, shard, acc):
                     op = ['add_junk', data.draw(st.integers(0, 5))]
                 elif k == 'to_string':
                     op = ['to_string', data.draw(st.integers(0, 1))]
+                elif k == 'raw':
+                    op = raw_op(data)
                 else:
                     op = draw_op(data, run, {kk: (1 if kk == k else 0) for kk in list(WEIGHTS) + ['deepcopy']})
                 with Watchdog(60):
